@@ -318,6 +318,19 @@ def random_expr(ctx):
     terms = []
     shapes = [("asym", "V", 2, 2), ("asym", "f", 1, 1), ("asym", "Za", 2, 2), ("asym", "d", 1, 1), ("nonsym", "A", 2, 0),
               ("nonsym", "B", 3, 0), ("ampl", "t1", 2, 2), ("nonsym", "Cc", 1, 0)]
+    occs0 = [n for n in names if n in G.OCC]
+    virs0 = [n for n in names if n in G.VIRT]
+    if len(occs0) == 2 and len(virs0) == 2 and rng.random() < 0.3:
+        # product of identical tensors: invariant under the product of two permutations, under neither alone
+        cls, nm = rng.choice([("nonsym", "A"), ("asym", "d")])
+        def T(o, v):
+            return (cls, nm, ((o, ""), (v, "")), (), 0) if cls == "nonsym" else (cls, nm, ((o, ""),), ((v, ""),), 0)
+        c0 = rng.choice([1, 2, sympy.Rational(1, 2)])
+        terms = [(c0, [T(occs0[0], virs0[0]), T(occs0[1], virs0[1])]),
+                 (rng.choice([c0, -c0]), [T(occs0[1], virs0[0]), T(occs0[0], virs0[1])])]
+        if rng.random() < 0.5:
+            terms.append((rng.choice([1, -1]) * sympy.Rational(1, 2), [("asym", "Za", ((occs0[0], ""), (occs0[1], "")), ((virs0[0], ""), (virs0[1], "")), 0)]))
+        return layout, terms
     for _ in range(nterms):
         contr = rng.sample(occ_c, rng.randint(0, 2)) + rng.sample(virt_c, rng.randint(0, 2))
         slots = [(n, "") for n in names] + [(c, "") for c in contr] * 2
